@@ -962,8 +962,8 @@ class Adapter:
         """the subdomain the adapter ends up with (Map.bind / Map.bind_to_environ; pinned in the translator)"""
         if self.mismatch:
             return "<invalid>"
-        if self.subdomain is None and self.default_sub is not None:
-            return self.default_sub
+        if self.subdomain is None and self.default_sub is not None and not self.environ:
+            return self.default_sub          # bind_to_environ always computes a subdomain ("" for the bare domain): no default there
         return self.subdomain
 
     def query_items(self):
@@ -1807,6 +1807,60 @@ def run_incremental(chk: Check, cases, lines: list, expect: list, meta: list) ->
                     break
 
 
+def make_wrapped(ms: MapSpec, rng):
+    """the map built through rule factories: every rule is created with ALL its options spelled out (also the falsy ones:
+    strict_slashes=False, merge_slashes=False, websocket, methods, defaults, subdomain) and reaches the map as the copy
+    Rule.empty() makes inside Submount / Subdomain / EndpointPrefix.  The factories rewrite one attribute each
+    (coq/C04/Factories.v); everything else - the tri-state flags in particular - must survive.  (Map, by_obj)"""
+    from werkzeug.routing import EndpointPrefix, Map, Subdomain, Submount
+    facs = []
+    for r in ms.rules:
+        inner, wraps = r, []
+        if r.segs and r.segs[0].lit is not None and (r.segs[1:] or r.tail or r.branch) and rng.random() < 0.6:
+            rest = r.segs[1:]
+            inner = replace(r, segs=rest, branch=bool(r.branch and (rest or r.tail)))
+            wraps.append(lambda x, k=r.segs[0].lit: Submount("/" + k, [x]))
+        if not ms.host_matching and rng.random() < 0.6:
+            d = r.dom.text()
+            inner = replace(inner, dom=Seg(lit="")) if rng.random() < 0.5 else inner
+            wraps.append(lambda x, d=d: Subdomain(d, [x]))
+        if rng.random() < 0.4 or not wraps:
+            wraps.append(lambda x: EndpointPrefix("", [x]))
+        fac = inner.make(ms.host_matching)
+        for w in wraps:
+            fac = w(fac)
+        facs.append(fac)
+    m = Map(facs, strict_slashes=ms.strict, merge_slashes=ms.merge, redirect_defaults=ms.redirect_defaults, host_matching=ms.host_matching)
+    specs = {(r.string(), f"e{r.endpoint}"): r for r in ms.rules}
+    by = {id(ro): specs[(ro.rule, ro.endpoint)] for ro in m.iter_rules()}
+    m._verif_objs = list(m.iter_rules())
+    return m, by
+
+
+def run_factory_maps(chk: Check, cases, lines: list, expect: list, meta: list) -> None:
+    """maps built through the rule factories against the oracles and the model of the flattened map"""
+    for ms, paths, meths, ad in cases:
+        try:
+            m, by_obj = make_wrapped(ms, chk.rng)
+        except Exception as e:  # noqa: BLE001
+            chk.fail("map-construction", f"Map construction through factories raised {type(e).__name__}: {e}", {"map": ms.describe()})
+            continue
+        oracles = [RuleOracle(r, ms) for r in ms.rules]
+        for path in paths:
+            for meth in meths:
+                impl = run_impl(m, ad, by_obj, path, meth)
+                bad = judge(ms, oracles, ad, path, meth, impl)
+                chk.count(f"factories:{impl.split(' ')[0]}")
+                if bad:
+                    chk.fail(bad[0] + "-through-factories", "the rules reach the map through Submount / Subdomain / EndpointPrefix: " + bad[1],
+                             {"map": ms.describe(), "adapter": ad.__dict__, "path": path, "method": meth,
+                              "observed": impl if not impl.startswith("R ") else "R " + uncps(impl[2:]), "mapspec": ms.enc(), "cfg": ms.cfg()})
+                chk.case(("factories", ms.cfg(), ms.enc(), ad.enc(), path, meth), nontrivial=impl.split(" ")[0] != "404")
+                lines.append(f"match {ms.cfg()} {ms.enc()} {ad.enc()} {cps(meth)} {cps(path)}")
+                expect.append(impl)
+                meta.append(("match", ms, path, meth, ad))
+
+
 def compare_model(chk: Check, sub: str, lines, expect, meta, canon=canon_model):
     exe = chk.build_modelrun(sub)
     if not exe:
@@ -1863,6 +1917,27 @@ def run(chk: Check) -> None:
             ms = replace(ms, rules=tuple(replace(r, idx=j) for j, r in enumerate(ms.rules)))
         inc.append((ms, gen_paths(rng, ms, 6), [rng.choice(["GET", "GET", "POST"])], ad))
     run_incremental(chk, inc, lines, expect, meta)
+    # maps whose rules arrive through rule factories, with per-rule options set to the opposite of the map's
+    fcases = []
+    for i in range(260 if quick else 4000):
+        ms = gen_map(rng, nmax=4, per_rule=True)
+        rules = []
+        for j, r in enumerate(ms.rules):
+            r = replace(r, idx=j, endpoint=j)
+            if rng.random() < 0.5:
+                r = replace(r, strict=not ms.strict)            # the opposite of the map: False on a strict map
+            if rng.random() < 0.5:
+                r = replace(r, merge=not ms.merge)
+            if rng.random() < 0.25:
+                r = replace(r, websocket=True, methods=None if r.methods is None or rng.random() < 0.5 else ("GET",))
+            if rng.random() < 0.3:
+                r = replace(r, dom=Seg(lit=rng.choice(["", "api"])))
+            rules.append(r)
+        ms = replace(ms, rules=tuple(rules))
+        fad = Adapter(scheme=rng.choice(["http", "ws"]) if any(r.websocket for r in rules) else "http",
+                      subdomain=rng.choice([None, "api"]) if any(r.dom.text() for r in rules) else None)
+        fcases.append((ms, gen_paths(rng, ms, 6), [rng.choice(["GET", "GET", "POST", "HEAD"])], fad))
+    run_factory_maps(chk, fcases, lines, expect, meta)
     compare_model(chk, "C03", lines, expect, meta)
 
 
